@@ -25,7 +25,12 @@ TVolumes == /\ Ev.e = "Volumes" /\ Volumes
             /\ l' = l + 1 /\ UNCHANGED tid
 TRadii == /\ Ev.e = "Radii" /\ EqualVolumeRadii /\ l' = l + 1 /\ UNCHANGED <<tid, fail>>
 TPipeK == /\ Ev.e = "SolvePipeK" /\ SolvePipeK(Ev.oc)
-          /\ fail' = Note(Ev.oc # "Bracketed" \/ Abs(Ev.dev_ppm) <= 100, "bracketed pipe-conductivity solve does not reproduce R_f + R_p")
+          \* F11 (listed): for coaxial exchangers the fixed bracket k/100 .. 10k can lie below the root (ClampHigh). Any other
+          \* unbracketed pipe solve is a failure: on the unchanged tree every double-U conversion brackets.
+          /\ fail' = Note(\/ (Ev.oc = "Bracketed" /\ Abs(Ev.dev_ppm) <= 100)
+                          \/ (Ev.oc = "ClampHigh" /\ Ev.kind = "COAXIAL"),
+                          IF Ev.oc = "Bracketed" THEN "bracketed pipe-conductivity solve does not reproduce R_f + R_p"
+                          ELSE "pipe-conductivity solve not bracketed (" \o Ev.oc \o "): R_f + R_p not reproduced")
           /\ l' = l + 1 /\ UNCHANGED tid
 TGroutK == /\ Ev.e = "SolveGroutK" /\ SolveGroutK(Ev.oc)
            /\ fail' = Note(Ev.oc # "Bracketed" \/ Abs(Ev.rb_dev_ppm) <= 1000, "bracketed grout-conductivity solve does not reproduce R_b* within 0.1 %")
